@@ -370,6 +370,13 @@ VARIANTS = [
     keep('P-setdefault-explicit-in', (B, "        return self.__data.setdefault(key, default)", "        if key not in self.__data:\n            self.__data[key] = default\n        return self.__data[key]")),
     brk('B-sweep-rebinds-local', ['C02'], 'R-cb-linear', (S, "        for id in sorted(self.__commandsWaitingReply):\n            self.__commandsWaitingReply[id](None, FAIL_REASON.LEADER_CHANGED)\n        self.__commandsWaitingReply = {}", "        waiting = self.__commandsWaitingReply\n        for id in sorted(waiting):\n            waiting[id](None, FAIL_REASON.LEADER_CHANGED)\n        waiting = {}")),
     keep('P-sweep-alias-clear', (S, "        for id in sorted(self.__commandsWaitingReply):\n            self.__commandsWaitingReply[id](None, FAIL_REASON.LEADER_CHANGED)\n        self.__commandsWaitingReply = {}", "        waiting = self.__commandsWaitingReply\n        for id in sorted(waiting):\n            waiting[id](None, FAIL_REASON.LEADER_CHANGED)\n        waiting.clear()")),
+    brk('B-verified-index-own-log-end', ['C01', 'C04'], 'R-commit-gate', (S, "                verifiedIdx = nextNodeIdx - 1\n", "                verifiedIdx = self.__getCurrentLogIndex()\n")),
+    brk('B-tally-reset-on-transition-only', ['C03'], 'R-tally-reset', (S, "                self.__votedForNodeId = self.__selfNode.id\n                self.__votesCount = 1\n", "                self.__votedForNodeId = self.__selfNode.id\n")),
+    keep('P-tally-reset-before-increment', (S, "                self.__raftCurrentTerm += 1\n                self.__votedForNodeId = self.__selfNode.id\n                self.__votesCount = 1\n", "                self.__votesCount = 1\n                self.__raftCurrentTerm += 1\n                self.__votedForNodeId = self.__selfNode.id\n")),
+    brk('B-rollback-wrong-list', ['C10', 'C04'], 'R-rollback-paired', (S, "for entry in reversed(existingEntries[conflictPos:]):", "for entry in reversed(prevEntries[conflictPos:]):")),
+    brk('B-trim-to-applied-not-dump', ['C06', 'C01'], 'R-log-owners', (S, "            self.__deleteEntriesTo(serializeID)\n", "            self.__deleteEntriesTo(self.__raftLastApplied - 1)\n")),
+    keep('P-trim-id-through-local', (S, "            self.__deleteEntriesTo(serializeID)\n            self.__lastSerializedEntry = serializeID\n", "            dumpedUpTo = serializeID\n            self.__deleteEntriesTo(dumpedUpTo)\n            self.__lastSerializedEntry = dumpedUpTo\n")),
+    brk('B-queue-full-broad-except', ['C02'], 'R-disposition', (S, "        except Queue.Full:\n            self.__callErrCallback(FAIL_REASON.QUEUE_FULL, callback)", "        except (Queue.Full, OSError):\n            self.__callErrCallback(FAIL_REASON.QUEUE_FULL, callback)")),
     keep('P-rename-transport-privates', (TR, '_shouldConnect', '_mustDial'), (TR, '_onIncomingMessageReceived', '_onHandshake'), (TR, '_connectIfNecessarySingle', '_dialOne'),
          (TR, '_onDisconnected', '_onConnLost')),
     keep('P-checkserializing-hoist-reset', (SER, "                serializeState = SERIALIZER_STATE.SUCCESS if self.__pid == -1 else SERIALIZER_STATE.FAILED\n                self.__pid = 0\n", "                finished = self.__pid\n                self.__pid = 0\n                serializeState = SERIALIZER_STATE.SUCCESS if finished == -1 else SERIALIZER_STATE.FAILED\n")),
